@@ -124,6 +124,7 @@ func runC09(c *Ctx) {
 	checkAccessorAgreement(c, "ck", "SlashRecordKey", "PendingDataPacketsV1Key", "PendingPacketsIndexKey")
 	checkSetterValues(c, "pk", []string{"SlashMeter"})
 	checkSetterValues(c, "ck", []string{"SlashRecord"})
+	checkIterDelete(c, 2, "ck")
 
 	c.Rule("R3", "provider BeginBlock runs BeginBlockCIS on every success path; BeginBlockCIS runs CheckForSlashMeterReplenishment", 2)
 	if f := c.Fn("provider.AppModule.BeginBlock"); f != nil {
